@@ -162,6 +162,8 @@ def run_cut_loop(ex, stmt, st, key, lc, guard_fn, bind_fn, advance_fn, label):
     advance_fn(state) -> None (mutates the state: end of an iteration, e.g. index += 1)
     Returns list of (state, outcome, value) for the code after the loop.
     """
+    if getattr(ex, '_no_cut_loops', None) and not lc:
+        raise OutsideSubset('call of %s which has no contract (it contains a loop over unknown elements)' % ex._no_cut_loops)
     eb = (lc or {}).get('entry_bind')
     if eb:
         # ghosts that the invariants speak about are computed once in the loop-entry state (may fork); the loop is then
